@@ -24,6 +24,25 @@ type LexEntry struct {
 	// For > 0: the entry is the node-level entry of node For-1, but it is stored in the source map of the node
 	// that owns this list (the index is keyed by the element, whichever SourceMap node holds the entry)
 	For int `json:"for,omitempty"`
+	// Unreadable marks a member of the list that is not a well-formed lexical entry: "element-is-a-link" (the
+	// element written as a node reference instead of a string), "no-element", "empty-entry" (a link to an entry node
+	// nothing is said about). A validator may refuse such a document; if it answers, the well-formed entries count.
+	Unreadable string `json:"unreadable,omitempty"`
+}
+
+// HasUnreadable reports whether some member list holds an unreadable member.
+func (s *SourceMaps) HasUnreadable() bool {
+	if s == nil {
+		return false
+	}
+	for _, es := range s.Entries {
+		for _, e := range es {
+			if e.Unreadable != "" {
+				return true
+			}
+		}
+	}
+	return false
 }
 
 // SourceMaps describes the lexical information to attach to a graph.
@@ -49,13 +68,13 @@ func (s *SourceMaps) NodeRange(i int) (Range, bool) {
 		return Range{}, false
 	}
 	for _, e := range s.Entries[i] {
-		if e.NodeLevel {
+		if e.NodeLevel && e.Unreadable == "" {
 			return e.Range, true
 		}
 	}
 	for _, es := range s.Entries {
 		for _, e := range es {
-			if e.For == i+1 {
+			if e.For == i+1 && e.Unreadable == "" {
 				return e.Range, true
 			}
 		}
@@ -108,8 +127,17 @@ func (s *SourceMaps) Attach(g *Graph) *Graph {
 				el = g.Nodes[e.For-1].ID
 			}
 			ln := &Node{ID: fmt.Sprintf("%s/source-map/lexical/element_%d", g.Nodes[i].ID, k), Props: map[string][]Val{}}
-			ln.AddVal(SM+"element", LV(S(el)))
-			ln.AddVal(SM+"value", LV(S(e.Range.String())))
+			switch e.Unreadable {
+			case "element-is-a-link":
+				ln.AddVal(SM+"element", NV(i))
+				ln.AddVal(SM+"value", LV(S(e.Range.String())))
+			case "no-element":
+				ln.AddVal(SM+"value", LV(S(e.Range.String())))
+			case "empty-entry":
+			default:
+				ln.AddVal(SM+"element", LV(S(el)))
+				ln.AddVal(SM+"value", LV(S(e.Range.String())))
+			}
 			out.Nodes = append(out.Nodes, ln)
 			out.Nodes[smi].AddVal(SM+"lexical", NV(li))
 		}
